@@ -47,7 +47,11 @@ func c16Text(rules []C08Rule, tagBase int64) (string, map[string]int64) {
 	for i, r := range rules {
 		tag := tagBase + int64(i)
 		tags[r.Name] = tag
-		fmt.Fprintf(&b, "rule %q %q salience %d\nbegin\n  S(@name)\n  gate(@name)\n  E(@name)\n  return %d\nend\n", r.Name, r.Desc, r.Sal, tag)
+		sal := fmt.Sprintf(" salience %d", r.Sal)
+		if r.NoSal {
+			sal = ""
+		}
+		fmt.Fprintf(&b, "rule %q %q%s\nbegin\n  S(@name)\n  gate(@name)\n  E(@name)\n  return %d\nend\n", r.Name, r.Desc, sal, tag)
 	}
 	return b.String(), tags
 }
